@@ -9,6 +9,7 @@
 -/
 import EnrVerif.Proofs.CodecTheorems
 import EnrVerif.Proofs.JsonLemmas
+import EnrVerif.Proofs.Examples
 
 namespace EnrVerif
 
@@ -121,6 +122,103 @@ theorem C12_json_escaped_spelling (S : Scheme) (r : Record) (h : Valid S r) :
     parseJson S ([34, 92, 117, 48, 48, 54, 53] ++ r.toText.drop 1 ++ [34]) = some r ∧
       [34, 92, 117, 48, 48, 54, 53] ++ r.toText.drop 1 ++ [34] ≠ r.toJson :=
   parseJson_escaped S r h
+
+/-! ### non-vacuity -/
+
+/-- the text form of the record `r0` (18 bytes of RLP, 24 base64 characters):
+    "enr:0YQBAgMNAYJpZIJ2NHSDAQID" -/
+example : r0.toText =
+    [101, 110, 114, 58, 48, 89, 81, 66, 65, 103, 77, 78, 65, 89, 74, 112, 90, 73, 74, 50, 78, 72,
+     83, 68, 65, 81, 73, 68] := by decide
+
+/-- and of `r1` (25 bytes, 34 characters, the last one carrying four trailing zero bits):
+    "enr:2IQBAgMUAoJpZIJ2NHSDAQIDg3VkcIJ2Xw" -/
+example : r1.toText =
+    [101, 110, 114, 58, 50, 73, 81, 66, 65, 103, 77, 85, 65, 111, 74, 112, 90, 73, 74, 50, 78, 72,
+     83, 68, 65, 81, 73, 68, 103, 51, 86, 107, 99, 73, 74, 50, 88, 119] := by decide
+
+/-- the hypothesis `Valid S r` of `C12_parse_text`/`C12_parse_noprefix` holds for them … -/
+example : parseText tinyS r0.toText = some r0 ∧ parseText tinyS (b64enc r0.encode) = some r0 :=
+  ⟨C12_parse_text tinyS r0 r0_valid, C12_parse_noprefix tinyS r0 r0_valid⟩
+
+example : parseText tinyS r1.toText = some r1 := C12_parse_text tinyS r1 r1_valid
+
+/-- … and the parser, run on the literal characters, agrees (with and without the prefix) -/
+example : parseText tinyS r0Text = some r0 ∧ parseText tinyS (r0Text.drop 4) = some r0 ∧
+    parseText tinyS r1Text = some r1 := by decide +kernel
+
+/-- both directions of `C12_parse_exact` on `r0` -/
+example : parseText tinyS r0.toText = some r0 :=
+  (C12_parse_exact tinyS _ r0).2 ⟨r0_valid, .inl rfl⟩
+
+example : Valid tinyS r0 ∧ (r0Text = r0.toText ∨ r0Text = b64enc r0.encode) :=
+  (C12_parse_exact tinyS r0Text r0).1 (by decide +kernel)
+
+/-! the named classes of rejected strings, as variants of "enr:0YQBAgMNAYJpZIJ2NHSDAQID" -/
+
+/-- padding: "…AQID=" and "…AQID==" -/
+example : parseText tinyS (r0Text ++ [61]) = none ∧ parseText tinyS (r0Text ++ [61, 61]) = none := by
+  decide +kernel
+
+/-- whitespace: a trailing newline, a leading space, a space after the prefix -/
+example : parseText tinyS (r0Text ++ [10]) = none ∧ parseText tinyS (32 :: r0Text) = none ∧
+    parseText tinyS (enrPrefix ++ 32 :: r0Text.drop 4) = none := by decide +kernel
+
+/-- the standard alphabet's `+` and `/` in place of `-` and `_`: "enr:0YQB+gMN…", "enr:0YQB/gMN…" -/
+example : parseText tinyS (r0Text.set 8 43) = none ∧ parseText tinyS (r0Text.set 8 47) = none := by
+  decide +kernel
+
+/-- other prefixes: "ENR:", "enr-", "enr:enr:" and none of the base64 -/
+example : parseText tinyS ([69, 78, 82, 58] ++ r0Text.drop 4) = none ∧
+    parseText tinyS ([101, 110, 114, 45] ++ r0Text.drop 4) = none ∧
+    parseText tinyS (enrPrefix ++ r0Text) = none ∧
+    parseText tinyS enrPrefix = none ∧ parseText tinyS [] = none := by decide +kernel
+
+/-- non-zero trailing bits: the last character `w` (110000) of `r1`'s text replaced by `x` (110001) -/
+example : parseText tinyS (r1Text.dropLast ++ [120]) = none := by decide +kernel
+
+/-- a character dropped or added at the end -/
+example : parseText tinyS r0Text.dropLast = none ∧ parseText tinyS (r0Text ++ [65]) = none ∧
+    parseText tinyS (r0Text ++ [65, 65]) = none := by decide +kernel
+
+/-- `C12_foreign_char_rejected` on the padded string: `=` occurs after the prefix -/
+example : parseText tinyS (r0Text ++ [61]) = none :=
+  C12_foreign_char_rejected tinyS (r0Text ++ [61]) 61 (by decide) C12_named_chars_foreign.1
+
+/-- `C12_trailing_bytes_rejected`: the base64 of `r0`'s encoding followed by one more byte,
+    "enr:0YQBAgMNAYJpZIJ2NHSDAQIDAA" -/
+example : parseText tinyS (enrPrefix ++ b64enc (r0.encode ++ [0])) = none :=
+  C12_trailing_bytes_rejected tinyS r0 r0_valid [0] (by decide)
+
+example : enrPrefix ++ b64enc (r0.encode ++ [0]) = r0Text ++ [65, 65] := by decide
+
+/-- the text of a byte string that is not a record (`r0` with its pairs swapped) -/
+example : parseText tinyS (enrPrefix ++ b64enc r0Swapped) = none := by decide +kernel
+
+/-- JSON: the document of `r0` is its text in quotes; reading it back gives `r0` -/
+example : r0.toJson = [34] ++ r0Text ++ [34] ∧ r0.toJsonDoc = r0.toJson :=
+  ⟨by rw [(C12_json_form r0).1, r0_toText], (C12_json_document r0).1⟩
+
+example : parseJson tinyS r0.toJson = some r0 := C12_parse_json tinyS r0 r0_valid
+
+example : parseJson tinyS ([34] ++ r0Text ++ [34]) = some r0 := by decide +kernel
+
+/-- `C12_parse_json_exact`, left to right, on a document with whitespace around the literal -/
+example : ∃ s, jsonUnquote ([32, 34] ++ r0Text ++ [34, 10]) = some s ∧ Valid tinyS r0 ∧
+    (s = r0.toText ∨ s = b64enc r0.encode) :=
+  (C12_parse_json_exact tinyS _ r0).1 (by decide +kernel)
+
+/-- the escaped spelling "\\u0065nr:0YQB…" of `C12_json_escaped_spelling`, literally -/
+example : parseJson tinyS ([34, 92, 117, 48, 48, 54, 53] ++ r0Text.drop 1 ++ [34]) = some r0 := by
+  have h := (C12_json_escaped_spelling tinyS r0 r0_valid).1
+  rw [r0_toText] at h
+  exact h
+
+/-- JSON documents that are rejected: unquoted text, `null`, a missing closing quote, text after
+    the literal, an escape that is not JSON -/
+example : parseJson tinyS r0Text = none ∧ parseJson tinyS [110, 117, 108, 108] = none ∧
+    parseJson tinyS ([34] ++ r0Text) = none ∧ parseJson tinyS ([34] ++ r0Text ++ [34, 120]) = none ∧
+    parseJson tinyS ([34, 92, 120] ++ r0Text ++ [34]) = none := by decide +kernel
 
 #print axioms C12_json_document
 #print axioms C12_parse_json
